@@ -273,3 +273,96 @@ Fixpoint run_code (c : ccode) (v : vdata) {struct c} : cres :=
          end) l v
   | _, _ => CUnmod
   end.
+
+(* ---- the candidate-set side condition of Chain additivity (Props/C13.v C13_chain_additive_same_cands).
+   Positional scores, pairwise counts with unranked_at_bottom, ScoreToRankedVotes(unscored_value) and InvertedApprovalVotes read
+   the set of all candidates off the profile they are handed; they are additive on profiles over the SAME candidates.  In a Chain
+   the profile a link is handed is the output of the link before it, so the condition is asked link by link, on the intermediate
+   profiles of the two sub-profiles. *)
+Inductive link := LK (k : ckind) | LInv.
+
+Fixpoint links_of (c : ccode) : option (list link) :=
+  match c with
+  | KConv k => Some [LK k]
+  | KInvSimple => Some [LInv]
+  | KChain l =>
+      (fix go (l : list ccode) : option (list link) :=
+         match l with
+         | [] => Some []
+         | c' :: t => match links_of c', go t with Some a, Some b => Some (a ++ b) | _, _ => None end
+         end) l
+  | _ => None
+  end.
+
+(* the candidates named by the keys of a dictionary (keys that are no ballots name nobody), as a canonical list *)
+Definition cands_of_keys {B} (dec : sx -> option B) (mem : B -> list C) (ks : list sx) : list C :=
+  canon_set (flat_map (fun k => match dec k with Some b => mem b | None => [] end) ks).
+
+(* what a converter reads off the profile besides the ballots: [] for the eleven converters that read nothing *)
+Definition kind_cands (k : ckind) (ks : list sx) : list C :=
+  match k with
+  | KPositional _ | KCondorcet _ => cands_of_keys key_ranked flatten ks
+  | KScoreRanked _ => cands_of_keys key_score (map fst) ks
+  | KInvApproval => cands_of_keys key_approval (fun b => b) ks
+  | _ => []
+  end.
+Definition link_cands (l : link) (ks : list sx) : list C := match l with LK k => kind_cands k ks | LInv => [] end.
+Definition run_link (l : link) (d : fdict) : cres := match l with LK k => run_kind k d | LInv => ok_f (inv_simple d) end.
+
+Fixpoint cs_eqb (a b : list C) : bool :=
+  match a, b with
+  | [], [] => true
+  | x :: a', y :: b' => Pos.eqb x y && cs_eqb a' b'
+  | _, _ => false
+  end.
+
+Fixpoint same_cands_links (ls : list link) (a b : fdict) : bool :=
+  match ls with
+  | [] => true
+  | l :: t =>
+      cs_eqb (link_cands l (map fst a)) (link_cands l (map fst b)) &&
+      match run_link l a, run_link l b with
+      | COk (VF a'), COk (VF b') => same_cands_links t a' b'
+      | _, _ => false
+      end
+  end.
+
+(* [same_cands c a b]: c is built from accumulating converters, InvertedSimpleVotes and Chains, and at every link the two
+   sub-profiles a and b have been converted to profiles over the same candidates *)
+Definition same_cands (c : ccode) (a b : fdict) : bool :=
+  match links_of c with Some ls => same_cands_links ls a b | None => false end.
+
+(* ---- where the library's two roundings can differ from the one exact rounding (Props/C13.v C13_rounded_code_outside_class).
+   A Fraction count x is first replaced by its 28 digit quotient v = sig_round 28 x and v is rounded to d decimals.  The rounding of
+   mode m is constant between two neighbouring BOUNDARIES of the mode: the exact halves (j + 1/2) / 10^d for the three HALF modes, the
+   grid points j / 10^d for the five directed modes - in units of half a unit of the last kept digit, the odd resp. the even integers.
+   [crosses m d x v]: some boundary of m lies in the closed interval between x and v. *)
+Definition half_boundaries (m : rmode) : bool :=
+  match m with RHalfUp | RHalfDown | RHalfEven => true | _ => false end.
+
+Definition crosses (m : rmode) (d : nat) (x v : Q) : bool :=
+  let lo := if Qle_bool x v then x else v in
+  let hi := if Qle_bool x v then v else x in
+  let jl := Qceiling (lo * (2 * pow10 d)) in
+  let jh := Qfloor (hi * (2 * pow10 d)) in
+  (jl <=? jh)%Z && ((jl <? jh)%Z || Bool.eqb (Z.odd jl) (half_boundaries m)).
+
+(* the double-rounding class: the 28 digit quotient is not the count itself and a boundary separates (or touches) the two *)
+Definition dr_class (prec : nat) (m : rmode) (d : nat) (x : Q) : bool :=
+  let v := sig_round prec x in negb (Qeq_bool v x) && crosses m d x v.
+
+(* the class EXACTLY, for the three HALF modes: a half strictly between the count and its quotient, or one of the two IS a half and the tie
+   rule of the mode sends it away from the other (Props/C13.v C13_rounded_half_class_exact) *)
+Definition is_odd_int (t : Q) : bool := Qeq_bool t (inject_Z (Qfloor t)) && Z.odd (Qfloor t).
+Definition half_inside (d : nat) (lo hi : Q) : bool :=
+  let jl := (Qfloor (lo * (2 * pow10 d)) + 1)%Z in
+  let jh := (Qceiling (hi * (2 * pow10 d)) - 1)%Z in
+  (jl <=? jh)%Z && ((jl <? jh)%Z || Z.odd jl).
+Definition crosses_half (m : rmode) (d : nat) (x v : Q) : bool :=
+  let lo := if Qle_bool x v then x else v in
+  let hi := if Qle_bool x v then v else x in
+  half_inside d lo hi
+  || (is_odd_int (lo * (2 * pow10 d)) && negb (Qle_bool lo (round_q m d lo)))
+  || (is_odd_int (hi * (2 * pow10 d)) && negb (Qle_bool (round_q m d hi) hi)).
+Definition dr_class_half (prec : nat) (m : rmode) (d : nat) (x : Q) : bool :=
+  let v := sig_round prec x in negb (Qeq_bool v x) && crosses_half m d x v.
